@@ -314,3 +314,44 @@ theorem prepared_rewriting_duplicate_counterexample :
   decide
 
 end C03
+
+namespace C03
+
+/-- the conditions' handles of `from_parser` on written formulas denote the formulas (list form of
+`buildNative_correct`) -/
+theorem buildNative_fns (fms : List Fm) (hn : fms.length ≤ VBOT) (hv : ∀ f ∈ fms, f.atomsOK) :
+    WF (buildNative fms.length fms).1 ∧ (buildNative fms.length fms).2.length = fms.length ∧
+    (∀ t ∈ (buildNative fms.length fms).2, t < (buildNative fms.length fms).1.nodes.size) ∧
+    (buildNative fms.length fms).2.map (eval (buildNative fms.length fms).1) = fms.map Fm.sem := by
+  obtain ⟨w, hl, hok⟩ := buildNative_correct fms.length fms hn hv
+  refine ⟨w, hl, ?_, ?_⟩
+  · intro t ht
+    obtain ⟨i, hi, rfl⟩ := List.getElem_of_mem ht
+    have hi' : i < fms.length := by rw [← hl]; exact hi
+    exact (hok i _ fms[i] (List.getElem?_eq_getElem hi) (List.getElem?_eq_getElem hi')).1
+  · apply List.ext_getElem
+    · simp [hl]
+    · intro i h1 h2
+      simp only [List.getElem_map]
+      have hi : i < (buildNative fms.length fms).2.length := by simpa using h1
+      have hi' : i < fms.length := by simpa using h2
+      funext σ
+      exact (hok i _ fms[i] (List.getElem?_eq_getElem hi) (List.getElem?_eq_getElem hi')).2 σ
+
+/-- **the oracle beyond truth-table size** (see `C02.complete_exact_from_formulas`): the stable
+enumeration of the model on the freshly compiled store lists exactly the stable models of the
+WRITTEN formulas, for frameworks of any size -/
+theorem stable_exact_from_formulas (fms : List Fm) (hn : fms.length ≤ VBOT) (hv : ∀ f ∈ fms, f.atomsOK) :
+    let b := buildNative fms.length fms
+    let D := fms.map Fm.sem
+    let out := (stableAll b.1 fms.length b.2).2.map (fun v => v.map storeIsConst)
+    out.Nodup ∧ ∀ v : I3, v ∈ out ↔
+      (v.length = fms.length ∧ TotalI v ∧ Gam D v = v ∧
+        ∀ w : I3, IsLfp (redu D v) w → ∀ i : Nat, v[i]? = some (some true) → w[i]? = some (some true)) := by
+  obtain ⟨w, hl, hlt, hf⟩ := buildNative_fns fms hn hv
+  have h := stable_exact (buildNative fms.length fms).1 fms.length (buildNative fms.length fms).2 w hl hlt
+  simp only at h
+  rw [hf] at h
+  exact h
+
+end C03
